@@ -67,9 +67,15 @@ def real_queries(scfg, n, subsets, pairs):
 
     def q(line, f, kind):
         try:
-            out.append((line, "ok " + f(), kind))
+            first = "ok " + f()
         except Exception as e:  # noqa: BLE001
-            out.append((line, exc(e), kind))
+            first = exc(e)
+        # a query is a function of the graph: asking again gives the same answer
+        try:
+            second = "ok " + f()
+        except Exception as e:  # noqa: BLE001
+            second = exc(e)
+        out.append((line, first if second == first else f"abort second-call-differs@{kind}", kind))
     q(f"find_head {top}", lambda: scfg.find_head(), "head")
     q(f"scc {top}", lambda: (lambda r: ";".join(cj(sorted(s)) for s in r) if r else "-")(scfg.compute_scc()), "scc")
     for sub in subsets:
@@ -81,6 +87,11 @@ def real_queries(scfg, n, subsets, pairs):
     q(f"pdoms {top}", lambda: fmt_setmap(tr._post_doms(scfg)), "doms")
     q(f"imm {top}", lambda: (lambda d: ";".join(f"{k}:{v}" for k, v in sorted(d.items())) or "-")(tr._imm_doms(tr._doms(scfg))), "imm")
     q(f"immp {top}", lambda: (lambda d: ";".join(f"{k}:{v}" for k, v in sorted(d.items())) or "-")(tr._imm_doms(tr._post_doms(scfg))), "imm")
+    # … and the answers do not depend on which other queries were asked in between
+    q(f"find_head {top}", lambda: scfg.find_head(), "head")
+    q(f"scc {top}", lambda: (lambda r: ";".join(cj(sorted(s)) for s in r) if r else "-")(scfg.compute_scc()), "scc")
+    for a, b in pairs[:3]:
+        q(f"reach {top} {a} {b}", lambda: "1" if scfg.is_reachable_dfs(a, b) else "0", "reach")
     return out
 
 
